@@ -728,6 +728,31 @@ pub fn worker(ctx: &Ctx, mut wc: WorkerCtx, _extra: &[String]) {
         }
     }
 
+    // ---- L: the fixed and base tokens once more in a process that has logging switched on (the library logs
+    // through `tracing`; what a log line computes is computed only when a subscriber listens)
+    {
+        let mut tokens = fixed_tokens();
+        tokens.extend(base_tokens());
+        for s in tokens.iter() {
+            unit += 1;
+            if unit % shards != shard {
+                continue;
+            }
+            case += 1;
+            if case <= resume {
+                continue;
+            }
+            wc.begin_case(case, &descriptor(0, Which::Event, &s[..s.len().min(200)], &[0xfe]));
+            crate::engine::logging::with_logging(|| {
+                for which in [Which::Event, Which::Command] {
+                    let parts = vec![vec![s.len()], vec![1; s.len()]];
+                    check_and_report(&mut wc, &mut local, which, s, &parts, "light+logging", false);
+                }
+            });
+            wc.count("L_logged_tokens", 1);
+        }
+    }
+
     // ---- N: every value of one numeric field (value-dependent tables and arithmetic are invisible to the
     // automaton: a panic may sit behind a single number)
     {
@@ -994,8 +1019,10 @@ pub fn replay(w: &Value) -> Result<(bool, String), String> {
             let which = Which::from_name(w["which"].as_str().unwrap_or("")).ok_or("which")?;
             let s = unhex(w["w"].as_str().ok_or("w")?);
             let parts = if s.len() <= 5 { all_partitions(s.len()) } else { light_partitions(s.len()) };
-            let mut detail = format!("input {:?} hex {}\n", esc(&s), hex(&s));
-            match check_string(which, &s, &parts, false) {
+            let logging = w["partitions"].as_str().map(|m| m.contains("logging")).unwrap_or(false);
+            let mut detail = format!("input {:?} hex {}{}\n", esc(&s), hex(&s), if logging { " (with a tracing subscriber that listens to everything)" } else { "" });
+            let checked = if logging { crate::engine::logging::with_logging(|| check_string(which, &s, &parts, false)) } else { check_string(which, &s, &parts, false) };
+            match checked {
                 Ok(problems) => {
                     for p in &problems {
                         detail += &format!("  {}: {}\n", p.kind, p.detail);
